@@ -254,3 +254,132 @@ func (w *World) ForceUnique(info FnInfo, data any) {
 		}
 	}
 }
+
+// ---------------------------------------------------------------------------------------
+// filters: selectors and elements types harvested from the FilterType struct tags
+
+type filterInfo struct {
+	SelType reflect.Type // struct type of the selectors (nil if none)
+	ElType  reflect.Type // struct type of the elements (nil if none)
+}
+
+var filterTable = map[model.FunctionType]filterInfo{}
+
+func init() {
+	ft := reflect.TypeOf(model.FilterType{})
+	for i := 0; i < ft.NumField(); i++ {
+		sf := ft.Field(i)
+		tags := model.EEBusTags(sf)
+		fn, ok := tags[model.EEBusTagFunction]
+		if !ok || sf.Type.Kind() != reflect.Ptr {
+			continue
+		}
+		fi := filterTable[model.FunctionType(fn)]
+		switch tags[model.EEBusTagType] {
+		case string(model.EEBusTagTypeTypeSelector):
+			fi.SelType = sf.Type.Elem()
+		case string(model.EEbusTagTypeTypeElements):
+			fi.ElType = sf.Type.Elem()
+		}
+		filterTable[model.FunctionType(fn)] = fi
+	}
+}
+
+// GenSelector builds a selector (pointer to the selectors struct) naming the full identifier
+// ids of an item: selector fields are matched to the item's key fields by name.
+//
+//go:norace
+func GenSelector(info FnInfo, ids []uint) any {
+	fi := filterTable[info.Fn]
+	if fi.SelType == nil || info.ItemType == nil {
+		return nil
+	}
+	s := shapeOf(info.ItemType)
+	sel := reflect.New(fi.SelType)
+	set := 0
+	for ki, k := range s.Keys {
+		f := sel.Elem().FieldByName(k.Name)
+		if !f.IsValid() || f.Kind() != reflect.Ptr || ki >= len(ids) {
+			continue
+		}
+		p := reflect.New(f.Type().Elem())
+		switch f.Type().Elem().Kind() {
+		case reflect.String:
+			p.Elem().SetString(fmt.Sprintf("k%d", ids[ki]))
+		case reflect.Uint:
+			p.Elem().SetUint(uint64(ids[ki]))
+		default:
+			continue
+		}
+		f.Set(p)
+		set++
+	}
+	if set == 0 {
+		return nil
+	}
+	return sel.Interface()
+}
+
+// SelectorCoversKeys reports whether the selectors type has a field for every key field of the
+// item (only then does a generated selector name a full identifier).
+//
+//go:norace
+func SelectorCoversKeys(info FnInfo) bool {
+	fi := filterTable[info.Fn]
+	if fi.SelType == nil || info.ItemType == nil {
+		return false
+	}
+	s := shapeOf(info.ItemType)
+	if len(s.Keys) == 0 || s.hasStructKey() {
+		return false
+	}
+	for _, k := range s.Keys {
+		f, ok := fi.SelType.FieldByName(k.Name)
+		if !ok || f.Type.Kind() != reflect.Ptr {
+			return false
+		}
+		if ek := f.Type.Elem().Kind(); ek != reflect.Uint && ek != reflect.String {
+			return false
+		}
+	}
+	return true
+}
+
+// GenElements builds an elements value naming the given item fields (by Go field name).
+// Returns nil if the elements type lacks one of them.
+//
+//go:norace
+func GenElements(info FnInfo, fields []string) any {
+	fi := filterTable[info.Fn]
+	if fi.ElType == nil {
+		return nil
+	}
+	el := reflect.New(fi.ElType)
+	for _, name := range fields {
+		f := el.Elem().FieldByName(name)
+		if !f.IsValid() || f.Kind() != reflect.Ptr {
+			return nil
+		}
+		f.Set(reflect.New(f.Type().Elem()))
+	}
+	return el.Interface()
+}
+
+// MakeFilter assembles a filter. kind is "partial" or "delete"; selector / elements may be nil.
+//
+//go:norace
+func MakeFilter(info FnInfo, kind string, selector, elements any) *model.FilterType {
+	f := &model.FilterType{CmdControl: &model.CmdControlType{}}
+	if kind == "partial" {
+		f.CmdControl.Partial = &model.ElementTagType{}
+	} else {
+		f.CmdControl.Delete = &model.ElementTagType{}
+	}
+	if selector != nil {
+		f.SetDataForFunction(model.EEBusTagTypeTypeSelector, info.Fn, selector)
+	}
+	if elements != nil {
+		f.SetDataForFunction(model.EEbusTagTypeTypeElements, info.Fn, elements)
+	}
+	return f
+}
